@@ -263,7 +263,7 @@ class WindowGenerator(object):
         self.ns = int(ns)
         self.nswin = int(nswin)
         self.overlap = int(overlap)
-        self.nwin = int(np.ceil(float(ns - nswin) / float(nswin - overlap))) + 1
+        self.nwin = max(int(np.ceil(float(ns - nswin) / float(nswin - overlap))), 0) + 1
         self.iw = None
 
     @property
@@ -281,8 +281,10 @@ class WindowGenerator(object):
 
         for first, last in self.firstlast:
             amp = np.ones(last - first)
-            amp[:self.overlap] = 1 if first == 0 else w
-            amp[-self.overlap:] = 1 if last == self.ns else np.flipud(w)
+            if first > 0:
+                amp[:self.overlap] = w
+            if last < self.ns:
+                amp[last - first - self.overlap:] = np.flipud(w)
             yield (first, last, amp)
 
     @property
